@@ -233,9 +233,13 @@ def l2_gen(seed, families, big):
     if mode == 1 and families:
         fam2 = r.pick(families)
         names += r.sample(fam2, min(len(fam2), max(0, nnames - len(names))))
+    exotic = r.below(5) == 0     # identifiers need not be ASCII: `$` and UTF-8 letters, often sharing an ASCII prefix with another name
     while len(names) < nnames:
         style = r.below(4)
-        if style == 0 and not big:
+        if exotic and r.below(2):
+            stem = r.pick(["a", "ab", "n", "_", "Z9"])
+            n = stem + r.pick(["", "$", "$b", "$1", "\u00e9", "\u00e9a", "\u03c0", "$\u00e9", "b$"]) if r.below(4) else r.pick(["$", "$x", "\u03c0", "\u00e9\u00e9"])
+        elif style == 0 and not big:
             n = r.pick(PREDEF + PREDEF_DYNAMIC)
         elif style == 1:
             n = "".join(r.pick("ab_") for _ in range(r.range(1, 3)))
@@ -277,6 +281,11 @@ def l2_gen(seed, families, big):
             ops.append(["arg", "undef", n, "", r.below(2)])
         elif k == 1:
             ops.append(["arg", "def", n, None, r.below(2)])  # -DN  => 1
+        elif r.below(5) == 0:
+            b = r.pick(["", "%d=%d" % (uniq[0] + 1, uniq[0] + 2), "=%d" % (uniq[0] + 3)])   # -DN=   -DN=1=2   -DN==3
+            uniq[0] += 3
+            last[n] = b
+            ops.append(["arg", "def", n, b, r.below(2)])
         else:
             ops.append(["arg", "def", n, body(n), r.below(2)])
     nops = r.pick([3, 5, 8, 12, 20, 40, 80]) if not big else r.range(300, 900)
@@ -295,6 +304,10 @@ def l2_gen(seed, families, big):
             else:
                 ops.append(["src", "def", n, body(n), 0])
         elif x < wdef + wundef:
+            if r.below(6) == 0:
+                # a directive inside a skipped group changes nothing (last field: which kind of skipped group)
+                ops.append(["src", r.pick(["skip_def", "skip_undef"]), n, str(uniq[0] + 500000), r.below(1000)])
+                continue
             ops.append(["src", "undef", n, "", 0])
             recent_undef = (recent_undef + [n])[-4:]
         else:
@@ -328,6 +341,13 @@ def l2_render(plan):
                 val = n if b is None else n + "=" + b
                 args += ["-D", val] if sep else ["-D" + val]
                 model[n] = ("obj", "1" if b is None else b)
+            continue
+        if kind in ("skip_def", "skip_undef"):
+            d = "#define %s %s" % (n, b) if kind == "skip_def" else "#undef %s" % n
+            und = "NEVER_DEFINED_%d" % sep
+            src.append(["#if 0\n%s\n#endif", "#ifdef %s\n%%s\n#endif" % und, "#if 1\n#else\n%s\n#endif", "#if 0\n#if 1\n%s\n#endif\n#endif",
+                        "#if 1\n#elif 1\n%s\n#endif", "#ifndef %s\n#else\n#if 1\n%%s\n#else\n#endif\n#endif" % und,
+                        "#if 0\n#elif 0\n%s\n#elif 1\n#else\n%s\n#endif", "#if 0\n#else\n#if 0\n%s\n#endif\n#endif"][sep % 8].replace("%s", d))
             continue
         if kind == "def":
             src.append("#define %s %s" % (n, b))
@@ -412,14 +432,14 @@ def l2_render(plan):
 
 
 def norm(line):
-    return " ".join(line.replace("(", " ( ").replace(")", " ) ").replace(",", " , ").split())
+    return " ".join(line.replace("(", " ( ").replace(")", " ) ").replace(",", " , ").replace("=", " = ").split())
 
 
 def l2_exec(cc, sdir, wid, plan):
     """returns (class, detail) ; class None when the output equals the model's"""
     args, src, exp = l2_render(plan)
     f = os.path.join(sdir, "l2.%d.c" % wid)
-    with open(f, "w") as fh:
+    with open(f, "w", encoding="utf-8") as fh:
         fh.write(src)
     try:
         p = subprocess.run([cc, "-E"] + args + [f], stdout=subprocess.PIPE, stderr=subprocess.PIPE, timeout=60)
@@ -612,18 +632,47 @@ def l3_gen(seed, families):
             lines.append("  line = line ? line : ((%s) != %d ? __LINE__ : 0);" % (e, v))
             probes += 1
         t = lookup(tags, n)
-        if t:
-            lines.append("  line = line ? line : (sizeof(struct %s) != %d ? __LINE__ : 0);" % (ref(n), t))
+        if t and t["size"]:     # (an incomplete tag has no size to ask for)
+            lines.append("  line = line ? line : (sizeof(struct %s) != %d ? __LINE__ : 0);" % (ref(n), t["size"]))
+            probes += 1
+        # a pointer declared while its tag was incomplete sees the completion -- of that tag, not of a namesake in another scope
+        live = [(k[1:], e) for d in tags for k, e in d.items() if k[0] == "*" and e["size"]]
+        if live and r.below(3) == 0:
+            pn, e = r.pick(live)
+            lines.append("  line = line ? line : (sizeof(*%s) != %d ? __LINE__ : 0);" % (pn, e["size"]))
             probes += 1
 
+    nptr = [0]
+
     def declare(n, at_file_scope):
-        k = r.below(4)
+        k = r.pick([0, 1, 2, 3, 0, 1, 2, 3, 4, 5])
         if k < 3 and n in ordinary[-1]:
             k = 3
-        if k == 3 and n in tags[-1]:
+        if k == 3 and n in tags[-1] and tags[-1][n]["size"]:
+            return
+        ind = "" if at_file_scope else "  "
+        if k == 4:
+            # `struct N;` declares a tag of this scope unless the scope has one already.
+            # (Not generated while an OUTER scope's tag N is visible: C says the declaration then hides it with a new incomplete
+            # type; chibicc takes it as a mention of the outer tag. That is a rule of the language about what `struct N;` means,
+            # not the discipline of the table -- the table does what it is asked -- so this property does not decide it.)
+            if n not in tags[-1] and lookup(tags, n) is not None:
+                return
+            lines.append("%sstruct %s;" % (ind, n))
+            if n not in tags[-1]:
+                tags[-1][n] = {"size": None}
+            return
+        if k == 5:
+            # a mention without a body refers to the visible tag, else declares an incomplete one here
+            e = lookup(tags, n)
+            if e is None:
+                e = tags[-1][n] = {"size": None}
+            nptr[0] += 1
+            pn = "pp%d_%d" % (seed % 1000, nptr[0])
+            lines.append("%sstruct %s *%s%s;" % (ind, ref(n), pn, "" if at_file_scope else " = 0"))
+            tags[-1]["*" + pn] = e
             return
         v = val()
-        ind = "" if at_file_scope else "  "
         if k == 0:
             lines.append("%stypedef char %s[%d];" % (ind, n, v))
             ordinary[-1][n] = ("typedef", v)
@@ -635,7 +684,10 @@ def l3_gen(seed, families):
             ordinary[-1][n] = ("enum", v)
         else:
             lines.append("%sstruct %s { char a[%d]; };" % (ind, n, v))
-            tags[-1][n] = v
+            if n in tags[-1]:
+                tags[-1][n]["size"] = v      # completes the incomplete tag of THIS scope (and whatever points to it)
+            else:
+                tags[-1][n] = {"size": v}    # a new type, even if an outer scope has an incomplete namesake
     nfile = r.range(0, nnames)
     for n in r.sample(names, nfile):
         declare(n, True)
